@@ -67,7 +67,6 @@ for _p, _n in MODULES:
 
 # hand-written externals (Py/Ext.lean): functions the subset cannot express, bound to the hand model
 EXTERNALS = {
-    ("py_common", "crc"): ("Ext.common_crc", 2, [None, ast.Constant(False)], ["msg", "encode"]),
     ("py_common", "cprNL"): ("Ext.common_cprNL", 1, [None], ["lat"]),
     ("py_common", "floor"): ("Ext.common_floor", 1, [None], ["x"]),
     ("aero", "mach2cas"): ("Ext.aero_mach2cas", 2, [None, None], ["Mach", "H"]),
